@@ -11,7 +11,18 @@ theorem commit_frame (s : State) :
     (commit s).phase = s.phase ∧ (commit s).cur = s.cur ∧ (commit s).remain = s.remain ∧ (commit s).destroying = s.destroying ∧
     (commit s).loopTid = s.loopTid ∧ (commit s).executed = s.executed ∧ (commit s).cancelled = s.cancelled ∧
     (commit s).exitPending = s.exitPending ∧ (commit s).log = s.log ∧ (commit s).efd.isSome = s.efd.isSome := by
-  unfold commit; split <;> simp
+  unfold commit; split
+  · simp
+  · split <;> simp
+
+theorem noteIn_frame (s : State) :
+    (noteIn s).inLoopQ = s.inLoopQ ∧ (noteIn s).nextQ = s.nextQ ∧ (noteIn s).tmpQ = s.tmpQ ∧ (noteIn s).dQ = s.dQ ∧
+    (noteIn s).keepRunning = s.keepRunning ∧ (noteIn s).inAlloc = s.inAlloc ∧ (noteIn s).nextAlloc = s.nextAlloc ∧
+    (noteIn s).phase = s.phase ∧ (noteIn s).cur = s.cur ∧ (noteIn s).remain = s.remain ∧ (noteIn s).destroying = s.destroying ∧
+    (noteIn s).loopTid = s.loopTid ∧ (noteIn s).executed = s.executed ∧ (noteIn s).cancelled = s.cancelled ∧
+    (noteIn s).exitPending = s.exitPending ∧ (noteIn s).log = s.log ∧ (noteIn s).efd = s.efd ∧
+    (noteIn s).hasCommit = s.hasCommit ∧ (noteIn s).wrLost = s.wrLost := by
+  simp [noteIn]
 
 /-- the non-wake part of the state after runInLoop -/
 theorem submitInLoop_frame (s : State) (tid : Nat) (body : List Act) :
@@ -24,8 +35,8 @@ theorem submitInLoop_frame (s : State) (tid : Nat) (body : List Act) :
   simp only [submitInLoop]
   split
   · have := commit_frame { s with inAlloc := s.inAlloc + 2, inLoopQ := s.inLoopQ ++ [{ id := s.inAlloc + 2, owner := tid, body := body }], log := .sub (s.inAlloc + 2) tid false :: s.log }
-    simpa using this
-  · simp
+    simpa [noteIn] using this
+  · simp [noteIn]
 
 /-! ### id bookkeeping -/
 
@@ -221,6 +232,10 @@ theorem core_swap {s s' : State} (h : Inv s) (a o e : List Nat)
 @[simp] theorem lastDriver_cancel (a : Nat) (c : Bool) (r : List Ev) : lastDriver (.cancel a c :: r) = lastDriver r := rfl
 @[simp] theorem lastDriver_start (a : Nat) (r : List Ev) : lastDriver (.start a :: r) = some a := rfl
 @[simp] theorem lastDriver_destroy (a : Nat) (r : List Ev) : lastDriver (.destroy a :: r) = some a := rfl
+@[simp] theorem lastDriver_cleanup (a : Nat) (r : List Ev) : lastDriver (.cleanup a :: r) = some a := rfl
+@[simp] theorem execsOk_cleanup (a : Nat) (r : List Ev) : execsOk (.cleanup a :: r) = execsOk r := rfl
+@[simp] theorem execIds_cleanup (a : Nat) (r : List Ev) : execIds (.cleanup a :: r) = execIds r := rfl
+@[simp] theorem cancelIds_cleanup (a : Nat) (r : List Ev) : cancelIds (.cleanup a :: r) = cancelIds r := rfl
 
 @[simp] theorem execsOk_sub (a b : Nat) (c : Bool) (r : List Ev) : execsOk (.sub a b c :: r) = execsOk r := rfl
 @[simp] theorem execsOk_exec (a b : Nat) (r : List Ev) :
